@@ -139,6 +139,34 @@ def nsSealed (s : St) (p : Bytes) : Bool :=
   | some n => n.sealed
   | none => false
 
+/-! ### creating, sealing and unsealing namespaces (`NamespaceStore.SetNamespaceWithSeal`, `SealNamespace`,
+`sealNamespaceLocked`, `UnsealNamespace`)
+
+`Ns.sealed` of a namespace with its own seal means: "the namespace's OWN key shares were not supplied since a seal
+last covered it". A namespace with an own seal is created sealed. `SealNamespace(p)` walks the subtree of `p` in
+post-order and seals the barrier of EVERY namespace in it that owns one (and unloads the descendants).
+`UnsealNamespace(p)` with `p`'s own shares unseals `p`'s barrier only; descendants are re-discovered from storage, a
+descendant with an own barrier stays sealed (`NamespaceSealed(newNs)` ⇒ its mounts are not loaded). Both operations
+are requests to the PARENT namespace's `sys/namespaces/<name>/(un)seal`: they are refused while a sealed namespace
+lies strictly above `p`. -/
+
+/-- `sealNamespaceLocked`: every own-barrier namespace at or below `p` is sealed -/
+def sealNs (s : St) (p : Bytes) : St :=
+  { s with nss := s.nss.map fun n => if n.sealable && p.isPrefixOf n.path then { n with sealed := true } else n }
+
+/-- `UnsealNamespace` with the namespace's own shares: only the barrier of `p` itself -/
+def unsealNs (s : St) (p : Bytes) : St :=
+  { s with nss := s.nss.map fun n => if n.path == p then { n with sealed := false } else n }
+
+/-- outcome of a seal / unseal request: refused (`namespace is sealed`) while a sealed namespace lies strictly above -/
+def sealOp (s : St) (p : Bytes) (doSeal : Bool) : St × Bool :=
+  if underSealed s p then (s, false) else ((if doSeal then sealNs s p else unsealNs s p), true)
+
+/-- a new namespace (created below existing ones only); one with an own seal starts sealed -/
+def addNs (s : St) (path : Bytes) (sealable : Bool) : St × Bool :=
+  if (allNs s).any (fun m => path.isPrefixOf m.path) then (s, false)
+  else ({ s with nss := s.nss ++ [{ path, sealable, sealed := sealable }] }, true)
+
 /-! ### policies -/
 
 def hasSegWildcard (p : Bytes) : Bool :=
@@ -309,5 +337,25 @@ def request (s : St) (t : Tok) (ctxNs : Option Bytes) (hdr path : Bytes) (op : O
     | some pre =>
       if ¬ aclAllows t ns.path rel (op = .list) then (s, .denied, pre)
       else backend s t op skey routed pre
+
+/-! ### histories -/
+
+/-- one event of a history: namespace creation, seal, unseal (own shares), a request, or any change of the mount
+table / token set (mount, unmount, remount, token creation, …) -/
+inductive Ev where
+  | addNs (path : Bytes) (sealable : Bool)
+  | sealEv (p : Bytes)
+  | unsealEv (p : Bytes)
+  | req (t : Tok) (ctx : Option Bytes) (hdr path : Bytes) (op : OpKind) (skey : Bytes)
+  | setup (mounts : List Mount) (toks : List Tok)
+
+def stepEv (s : St) : Ev → St
+  | .addNs p sl => (addNs s p sl).1
+  | .sealEv p => (sealOp s p true).1
+  | .unsealEv p => (sealOp s p false).1
+  | .req t ctx hdr path op skey => (request s t ctx hdr path op skey).1
+  | .setup mounts toks => { s with mounts := mounts, toks := toks }
+
+def runEvs (s : St) (evs : List Ev) : St := evs.foldl stepEv s
 
 end Obao.Confine
